@@ -300,7 +300,7 @@ func solveCovers(fr *FuncResult, opts SolveOpts) map[string]string {
 					fmt.Fprintf(&b, "(assert %s)\n", t.S)
 				}
 				fmt.Fprintf(&b, "(assert %s)\n(check-sat)\n", ci.Cond.S)
-				ls, _, _ := runSolver("z3-new", b.String(), opts.TimeoutMS, 1, opts.WorkDir, fmt.Sprintf("%s.cover%s.%d", sanitize(fr.Key), sanitize(name), k))
+				ls, _, _ := runSolver("z3-new", b.String(), 1500, 1, opts.WorkDir, fmt.Sprintf("%s.cover%s.%d", sanitize(fr.Key), sanitize(name), k))
 				files, _ := filepath.Glob(filepath.Join(opts.WorkDir, fmt.Sprintf("%s.cover%s.%d.*", sanitize(fr.Key), sanitize(name), k)))
 				for _, f := range files {
 					os.Remove(f)
@@ -310,7 +310,8 @@ func solveCovers(fr *FuncResult, opts SolveOpts) map[string]string {
 					break
 				}
 				if len(ls) == 0 || ls[0] != "unsat" {
-					status = "undecided"
+					status = "not-refuted"
+					break
 				}
 			}
 			mu.Lock()
